@@ -124,12 +124,12 @@ namespace smt
     inline friend inf_rational operator+(const rational &lhs, const inf_rational &rhs) noexcept { return inf_rational(lhs + rhs.rat, rhs.inf); }
     inline friend inf_rational operator-(const rational &lhs, const inf_rational &rhs) noexcept { return inf_rational(lhs - rhs.rat, -rhs.inf); }
     inline friend inf_rational operator*(const rational &lhs, const inf_rational &rhs) noexcept { return inf_rational(lhs * rhs.rat, lhs * rhs.inf); }
-    inline friend inf_rational operator/(const rational &lhs, const inf_rational &rhs) noexcept { return inf_rational(lhs / rhs.rat, lhs / rhs.inf); }
+    inline friend inf_rational operator/(const rational &lhs, const inf_rational &rhs) noexcept { return inf_rational(lhs / rhs.rat, -((lhs * rhs.inf) / (rhs.rat * rhs.rat))); } // lhs / (r + i*eps) = lhs/r - (lhs*i/r^2)*eps
 
     inline friend inf_rational operator+(const I &lhs, const inf_rational &rhs) noexcept { return inf_rational(lhs + rhs.rat, rhs.inf); }
     inline friend inf_rational operator-(const I &lhs, const inf_rational &rhs) noexcept { return inf_rational(lhs - rhs.rat, -rhs.inf); }
     inline friend inf_rational operator*(const I &lhs, const inf_rational &rhs) noexcept { return inf_rational(lhs * rhs.rat, lhs * rhs.inf); }
-    inline friend inf_rational operator/(const I &lhs, const inf_rational &rhs) noexcept { return inf_rational(lhs / rhs.rat, lhs / rhs.inf); }
+    inline friend inf_rational operator/(const I &lhs, const inf_rational &rhs) noexcept { return inf_rational(lhs / rhs.rat, -((lhs * rhs.inf) / (rhs.rat * rhs.rat))); }
 
     friend std::string to_string(const inf_rational &rhs) noexcept
     {
